@@ -138,7 +138,7 @@ def line_of(root_el, prefix="xtce"):
 def generate(rng, tier):
     ndefs = 30 if tier == "quick" else 1500
     for _ in range(ndefs):
-        d = defgen.Defn(rng, max_depth=rng.choice([1, 2, 3]), fanout=3, adj_pool=c09.ADJ_POOL, rich=True)
+        d = defgen.Defn(rng, max_depth=rng.choice([1, 2, 3]), fanout=3, adj_pool=c09.ADJ_POOL, rich=True, odd_names=True)
         sp = xmlgen.Spelling("prefix", "xtce", comments=0.0)
         xml = xmlgen.document(rng, d.sexpr(), sp)
         root = ET.fromstring(xml)
